@@ -687,6 +687,10 @@ func Hash(msg, dst []byte, count int) ([]{{.ElementName}}, error) {
 	const L = 16 + Bytes
 
 	lenInBytes := count * L
+	if count < 0 || lenInBytes/L != count {
+		// count * L overflows: the request is far beyond what expand_message_xmd can produce
+		return nil, errors.New("invalid count")
+	}
 	pseudoRandomBytes, err := hash.ExpandMsgXmd(msg, dst, lenInBytes)
 	if err != nil {
 		return nil, err
